@@ -305,7 +305,7 @@ def spaces(tier):
         return [Space("locals-1scope", gen(L_OPS, L_OPEN, 3, 1, 1), check, variant="fast", describe="locals: <=3 ops, <=1 scope, all 7 openers"),
                 Space("locals-2scopes", gen(["w", "pw", "ps", "pr", "r", "rb", "wb"], ["call", "foreach", "spawn", "while"], 3, 2, 2), check, variant="fast",
                       describe="locals: <=3 ops, 2 scopes (nested or sequential), 4 openers"),
-                Space("globals", gen(G_OPS, ["call", "withui", "spawn"], 3, 2, 2), check, variant="fast", describe="globals/namespaces: <=3 ops, <=2 scopes, depth<=2")]
+                Space("globals", gen(G_OPS, ["call", "withui", "withmission", "spawn"], 3, 2, 2), check, variant="fast", describe="globals/namespaces: <=3 ops, <=2 scopes (call, with uiNamespace, with missionNamespace, spawn), depth<=2")]
     return [Space("locals-4ops-1scope", gen(L_OPS, L_OPEN, 4, 1, 1), check, variant="fast", describe="locals: <=4 ops, <=1 scope, all 7 openers"),
             Space("locals-3ops-2scopes", gen(L_OPS, L_OPEN, 3, 2, 2), check, variant="fast", describe="locals: <=3 ops, <=2 scopes (nested or sequential), all 7 openers"),
             Space("locals-deep", gen(["w", "pw", "ps", "r"], ["call", "foreach", "spawn", "if"], 3, 3, 3), check, variant="fast", describe="locals: <=3 ops, 3 scopes, depth 3"),
